@@ -689,8 +689,12 @@ def gen_wiring_case(rng, name):
         return next_id[0]
 
     tmult = {t: rng.choice([1.0, 1.0, 2.0, 0.5]) for t in tickers}     # one contract size per ticker
+    # a shape of its own: sub-strategies attached later with parent= that all hold the SAME lazy_add Security object
+    shared_lazy = rng.choice(tickers) if rng.random() < 0.12 else None
 
     def sec(t):
+        if t == shared_lazy:
+            return ["sec", t, "sec", False, hx(tmult[t]), True]
         u = rng.random()
         if u < 0.35:
             return ["sec", t, "sec", False, hx(1.0), "str"]
@@ -700,6 +704,8 @@ def gen_wiring_case(rng, name):
 
     def leaf(depth):
         decl = rng.sample(tickers, rng.randint(1, nt)) if rng.random() < 0.7 else []
+        if shared_lazy is not None and shared_lazy not in decl:
+            decl.append(shared_lazy)
         kids = [sec(t) for t in decl]
         st = [g.calendar_scheduler(), ["selectall", False, False]]
         if rng.random() < 0.3 and decl:
@@ -709,12 +715,15 @@ def gen_wiring_case(rng, name):
         return ["strat", nid(), False, kids, st, how]
 
     def inner(depth):
-        kids = [leaf(depth + 1) if (depth >= 1 or rng.random() < 0.7) else inner(depth + 1) for _ in range(rng.randint(1, 3))]
+        kids = [leaf(depth + 1) if (depth >= 1 or rng.random() < 0.7) else inner(depth + 1)
+                for _ in range(rng.randint(2, 3) if shared_lazy is not None else rng.randint(1, 3))]
         all_strats = True
-        if rng.random() < 0.4:
+        if rng.random() < 0.4 and shared_lazy is None:
             kids.insert(rng.randrange(len(kids) + 1), sec(rng.choice(tickers)))
             all_strats = False
         how = rng.choice(["list", "dict", "late", "late"]) if all_strats else rng.choice(["list", "dict"])
+        if shared_lazy is not None:
+            how = "late"
         first = rng.choice([["runonce"], ["runperiod", "daily", True, False, False], ["runperiod", "weekly", True, False, True]])
         # act on the universe: SelectAll sees the sub-strategy columns (and, for a strategy that declared no ticker, every ticker)
         if rng.random() < 0.6:
@@ -726,14 +735,14 @@ def gen_wiring_case(rng, name):
                 ws = [w / 2 for w in ws]
             st = [first, ["weighspecified", [[i, hx(w)] for i, w in zip(ids, ws)]], ["rebalance"]]
         return ["strat", nid(), False, kids, st, how]
-    tree = inner(0) if rng.random() < 0.75 else leaf(0)
+    tree = inner(0) if (rng.random() < 0.75 or shared_lazy is not None) else leaf(0)
     comm = ["none"]
     if rng.random() < 0.5:
         comm = rng.choice([["flat", hx(dy(rng, 0, 4, 4))], ["pershare", hx(0.015625)], ["prop", hx(0.001953125)]])
     return {"name": name, "dates": dates, "intpos": rng.random() < 0.5, "comm": comm, "prices": prices,
             "bidoffer": None, "coupons": None, "cost_long": None, "cost_short": None, "adata": g.adata,
             "capital": hx(float(rng.choice([100000, 1000000]))), "tree": tree, "pyseed": rng.randint(0, 1000),
-            "preset_comm": rng.random() < 0.5, "share_objects": rng.random() < 0.5}
+            "preset_comm": rng.random() < 0.5, "share_objects": (rng.random() < 0.5) or shared_lazy is not None}
 
 
 def gen_wiring_cases(seed, n, prefix="t"):
